@@ -32,7 +32,8 @@ class CHECK(Check):
             "layouts in any field order with gaps, text and binary; (c) default-constructed fields compared with the "
             "documented defaults. Values that do not fit (decided by the model's fits) are counted and skipped. "
             "non-trivial = the target line is non-empty and differs from blanks, or the layout has >= 2 fields; "
-            "distinct = case hash")
+            "distinct = case hash"
+            " Later additions: targets ending in line breaks/blanks/tabs; 30% of the multi-field layouts overlap.")
     exhaustive = True
 
     def entry_of(self, case):
